@@ -1,5 +1,8 @@
 import ScrapliModel.Lemmas.Store
 import ScrapliModel.Lemmas.StoreTimed
+import ScrapliModel.Netconf.StoreSession
+import ScrapliModel.Generated.BodiesNetconf
+import ScrapliModel.Generated.C08ReadLoop
 import ScrapliModel.Lemmas.BodiesStore
 import ScrapliModel.Generated.BodiesStore
 /-!
@@ -236,6 +239,97 @@ example : (run .v11 init [.call, .read (f2body.take 37), .read (f2body.drop 37 +
     = [(101, some (f2body.take 37))] := by decide +kernel
 
 /-! ## tie to the source: translated body = model (regenerated on every run) -/
+
+/-! ## version matrix: the read loop waits for the marker of the version the session speaks -/
+
+/-- `delimiter_matches_selected_version` (model): for every cell of server capabilities x client
+preference in which a session comes about, the pattern the read loop examines its buffer with is
+the end-of-message marker of the SELECTED version — so `fetch_returns_own` and
+`complete_reply_not_lost`, stated for `run v`, speak about `Session.run` with `v = selected`; and
+the selected version is the client's preference when it states one, else the highest common. -/
+theorem delimiter_matches_selected_version (s10 s11 : Bool) (pref : Option Ver) (n : Session)
+    (h : negotiate s10 s11 pref = some n) :
+    n.prompt = n.selected ∧
+      (∀ v, pref = some v → n.selected = v) ∧
+      (pref = none → n.selected = if s11 then .v11 else .v10) := by
+  cases s10 <;> cases s11 <;> cases pref with
+  | none => simp [negotiate] at h <;> (try subst h) <;> simp
+  | some v => cases v <;> simp [negotiate] at h <;> (try subst h) <;> simp
+
+theorem session_run_is_selected_version (s10 s11 : Bool) (pref : Option Ver) (n : Session)
+    (h : negotiate s10 s11 pref = some n) (c : Client) (evs : List Ev) :
+    n.run c evs = run n.selected c evs := by
+  rw [← (delimiter_matches_selected_version s10 s11 pref n h).1]; rfl
+
+/-- tie to the source (regenerated body of `(*Driver).determineVersion`, with the two compiled
+delimiter patterns instantiated by the versions they belong to): whenever the code returns `nil`,
+the pattern it leaves in `Channel.PromptPattern` belongs to the version it leaves in
+`SelectedVersion`, whatever both held on entry, and the pair is the model's `negotiate`. -/
+theorem generated_determineVersion_prompt (caps : List Bytes) (pref sel0 sel : Bytes) (p0 p : Ver)
+    (h : Gen.Bodies.Netconf.determineVersion caps pref Ver.v10 Ver.v11 sel0 p0 = (none, sel, p)) :
+    sel = p.str ∧
+      negotiate (Netconf.Hello.hasCap caps Gen.Netconf.v1Dot0Cap)
+        (Netconf.Hello.hasCap caps Gen.Netconf.v1Dot1Cap) (prefOf pref) = some ⟨p, p⟩ := by
+  have hne : (Gen.Netconf.V1Dot1 == Gen.Netconf.V1Dot0) = false := by decide
+  unfold Gen.Bodies.Netconf.determineVersion at h
+  unfold negotiate prefOf
+  cases h11 : Netconf.Hello.hasCap caps Gen.Netconf.v1Dot1Cap <;>
+    cases h10 : Netconf.Hello.hasCap caps Gen.Netconf.v1Dot0Cap <;>
+    cases hp0 : pref == Gen.Netconf.V1Dot0 <;> cases hp1 : pref == Gen.Netconf.V1Dot1 <;>
+    simp [h11, h10, hp0, hp1, hne, Ver.str] at h ⊢ <;>
+    (try (obtain ⟨h1, h2⟩ := h; subst h1; subst h2; simp))
+
+/-- regenerated syntactic fact: in `determineVersion` no assignment to `Channel.PromptPattern`
+stands before the last assignment to `SelectedVersion` (the pattern is derived after the
+`PreferredVersion` override) -/
+theorem promptPattern_assigned_after_final_selection :
+    Gen.C08ReadLoop.determineVersionFound = true ∧
+      0 < Gen.C08ReadLoop.promptPatternAssigns ∧
+      Gen.C08ReadLoop.promptPatternAssignsBeforeLastSelectedVersion = 0 := by decide
+
+/-- negative witness: installing the pattern with the first pick leaves a server that offers both
+versions and a client that prefers 1.0 with 1.0 framing and a read loop waiting for `##` … -/
+example : negotiateEarlyPrompt true true (some .v10) = some ⟨.v10, .v11⟩ := by decide
+/-- … and then no 1.0-framed reply is ever filed: the call times out -/
+example : ((⟨.v10, .v11⟩ : Session).run init [.call, .read (r10body ++ [10]), .read [], .poll, .expire]).results
+    = [(101, none)] := by decide +kernel
+example : ((⟨.v10, .v10⟩ : Session).run init [.call, .read (r10body ++ [10]), .read [], .poll, .expire]).results
+    = [(101, some (r10body ++ [10]))] := by decide +kernel
+
+/-! ## the read loop examines its buffer on every pass, also when nothing arrived -/
+
+/-- `complete_reply_delivered_without_new_bytes`: when the buffer holds a complete reply (say,
+because the echo that shared its read has just been stripped), ONE further iteration of the read
+loop files it under its id — whether or not new bytes arrive (here: an empty read). -/
+theorem complete_reply_delivered_without_new_bytes (v : Ver) (r : Reply) (lf a y : Bytes)
+    (hr : goodReply v r = true) (hlf : allLF lf = true) (ht : r.tail = a ++ y) :
+    bufStep v (lf ++ r.body ++ a) [] = ([], some (r.to, lf ++ r.body ++ a)) :=
+  bufStep_reply hr hlf y ht (lf ++ r.body ++ a) [] (by simp)
+
+/-- session form: with such a buffer and the call for `r.to` waiting, an idle iteration followed
+by a poll returns the reply -/
+theorem waiting_call_gets_buffered_reply (v : Ver) (r : Reply) (lf a y : Bytes) (c : Client)
+    (hr : goodReply v r = true) (hlf : allLF lf = true) (ht : r.tail = a ++ y)
+    (hbuf : c.st.buf = lf ++ r.body ++ a) (hp : c.pending = some r.to) :
+    (run v c [.read [], .poll]).results = c.results ++ [(r.to, some (lf ++ r.body ++ a))] := by
+  have hs := complete_reply_delivered_without_new_bytes v r lf a y hr hlf ht
+  simp only [List.append_assoc] at hs hbuf
+  simp [run, step, readStep, hbuf, hs, St.file, hp, fetch, Store.get, Store.put]
+
+/-- regenerated syntactic fact: between taking bytes off the channel and examining the buffer the
+loop of `(*Driver).read` has no `continue` / `break` / `goto` (an empty read does not skip the
+examination) -/
+theorem read_loop_examines_buffer_every_pass :
+    Gen.C08ReadLoop.readLoopFound = true ∧ Gen.C08ReadLoop.jumpsBetweenReadAndExamine = [] := by
+  decide
+
+/-- negative witness: echo and reply coalesced into one read, then silence. The loop that looks at
+its buffer every pass files the reply on the idle iteration; the skip-on-empty variant never does. -/
+example : (filings .v11 [] [e11body ++ [10, 10] ++ r11body ++ [10], [], [], []]).1
+    = [(101, [10, 10] ++ r11body ++ [10])] := by decide +kernel
+example : (filingsSkip .v11 [] [e11body ++ [10, 10] ++ r11body ++ [10], [], [], []]).1 = [] := by
+  decide +kernel
+example : (filingsSkip .v10 [] [e10body ++ r10body ++ [10], [], []]).1 = [] := by decide +kernel
 
 /-! ## histories: per-call deadlines (timed layer, `Netconf/StoreTimed.lean`) -/
 
